@@ -38,3 +38,18 @@ M("c05_stepd_reset_keeps_r", STEPD, "self._s, self._r = 0, 0\n        self._wind
   "self._s = 0\n        self._window = []\n        self._test_statistic = None\n        self._test_p = None\n        self._initialize_retraining_recs()\n\n    def update", ["C05", "C02"])
 M("c05_stepd_recs_not_cleared", STEPD, "                self.drift_state = None\n                self._initialize_retraining_recs()\n", "                self.drift_state = None\n", ["C05"])
 M("c05_stepd_continuity", STEPD, "                - 0.5\n", "                - 0.25\n", ["C05"])
+
+CU = "menelaus/change_detection/cusum.py"
+PH = "menelaus/change_detection/page_hinkley.py"
+M("c04_cusum_stale_index", CU, "                + (self._stream[-1] - self.target)\n", "                + (self._stream[self.samples_since_reset - 1] - self.target)\n", ["C04", "C02"])
+M("c04_cusum_burnin_ge", CU, "        if self.samples_since_reset > self.burn_in:\n            if self.direction is None:", "        if self.samples_since_reset >= self.burn_in:\n            if self.direction is None:", ["C04", "C01"])
+M("c04_cusum_sl_sign", CU, "                - self.delta\n                - (self._stream[-1] - self.target)", "                - self.delta\n                + (self._stream[-1] - self.target)", ["C04"])
+M("c04_cusum_reestimate_window", CU, "self.target = np.mean(self._stream[-self.burn_in :])", "self.target = np.mean(self._stream[-self.burn_in - 1 : -1])", ["C04", "C02"])
+M("c04_cusum_negative_uses_upper", CU, "                if self._lower_bound[self.samples_since_reset] > self.threshold:\n                    self.drift_state = \"drift\"\n",
+  "                if self._upper_bound[self.samples_since_reset] > self.threshold:\n                    self.drift_state = \"drift\"\n", ["C04"])
+M("c04_cusum_reset_keeps_upper", CU, "        self._upper_bound = [0]\n        self._lower_bound = [0]\n\n    def update", "        self._upper_bound = [self._upper_bound[-1] * 0.5]\n        self._lower_bound = [0]\n\n    def update", ["C04", "C02"])
+M("c04_ph_min_not_reset", PH, "        super().reset()\n        self._max = 0\n        self._min = 0\n", "        super().reset()\n        self._max = 0\n", ["C04", "C02"])
+M("c04_ph_directions_swapped", PH, "        if self.direction == \"positive\":\n            ph_difference = self._sum - self._min\n        elif self.direction == \"negative\":", "        if self.direction == \"negative\":\n            ph_difference = self._sum - self._min\n        elif self.direction == \"positive\":", ["C04"])
+M("c04_ph_burnin_ge", PH, "if drift_check and self.samples_since_reset > self.burn_in:", "if drift_check and self.samples_since_reset >= self.burn_in:", ["C04", "C01"])
+# (equivalent: PageHinkley._mean not reset - the first update of an epoch overwrites it: mean + (x - mean)/1 == x)
+M("c04_ph_delta_sign", PH, "self._sum = self._sum + X - self._mean - self.delta", "self._sum = self._sum + X - self._mean + self.delta", ["C04"])
